@@ -895,12 +895,24 @@ impl Exec {
             .count()
     }
 
-    fn render_store(&self) -> String {
-        let w = self.world.as_ref().unwrap();
+    fn render_store(&mut self) -> String {
+        let w = self.world.as_mut().unwrap();
         let n = ORDS.with(|o| o.borrow().len());
         let mut parts = vec![];
         for i in 0..n {
             let id = ord_key(i);
+            // `World::get_mut` has a lookup of its own (round-8 change C02_X_1 dropped the generation comparison there only):
+            // it must answer exactly like `World::get`, for live and for dead ids
+            let mut_differs = w.get_mut::<K0>(id).is_some() != w.get::<K0>(id).is_some()
+                || w.get_mut::<K1>(id).is_some() != w.get::<K1>(id).is_some()
+                || w.get_mut::<K2>(id).is_some() != w.get::<K2>(id).is_some()
+                || w.get_mut::<K3>(id).is_some() != w.get::<K3>(id).is_some()
+                || w.get_mut::<K4>(id).is_some() != w.get::<K4>(id).is_some()
+                || w.get_mut::<K5>(id).is_some() != w.get::<K5>(id).is_some();
+            if mut_differs {
+                parts.push(format!("#{i}=GHOST"));
+                continue;
+            }
             if !w.entities().contains(id) {
                 // a dead id must be dead through every lookup
                 let ghost = w.entities().get(id).is_some()
